@@ -433,7 +433,8 @@ PagSessionClauses(post, o, S) ==
     <<"C09.member",   got \subseteq LSet(r.wpages)>>,
     <<"C09.complete", (r.exc = "" /\ r.done /\ r.pure /\ current) =>
                          { p \in SeqSet(r.through) : ~a.co \/ p \in SeqSet(r.cthrough) } \subseteq SeqSet(all)>>,
-    <<"C09.token",    r.tokenRoundTrip>>
+    <<"C09.token",    r.tokenRoundTrip>>,
+    <<"bind.token",   r.tokenIndep>>
   >>)
 
 PagLinkSessionClauses(post, o, S) ==
@@ -458,7 +459,8 @@ PagLinkSessionClauses(post, o, S) ==
                            Len(r.links) = Cardinality({ <<e[1], e[2]>> : e \in Trip(r.links) })>>,
     <<"C10.subset",   Trip(r.links) \subseteq Trip(r.full)>>,
     <<"C10.union",    (r.exc = "" /\ r.done /\ r.quiet) => all = Trip(r.full)>>,
-    <<"C10.token",    r.tokenRoundTrip>>
+    <<"C10.token",    r.tokenRoundTrip>>,
+    <<"bind.token",   r.tokenIndep>>
   >>)
 
 (***************************************************************************)
